@@ -107,6 +107,10 @@ PRETTY_EXTRA = [
     ':nth-child(-n+3 of :nth-child(-n+2 of :nth-child(-n+1)))',
     ':not(:is(:where([a="b" i], [c|=d]), :nth-child(-2n+1)), :lang(en, "de-*"))',
     '[a="' + 'x' * 250 + '"]',
+    # long runs of quotes / backslashes / brackets: the repr of the compiled regex is cut at 200 characters, possibly in the middle of an
+    # escape or of a quoted string
+    '[a="' + '\\\\' * 60 + '"]', '[a=\'' + '\\"' * 70 + '\']', '[a="' + "'" * 120 + '"]', '[a="' + '(' * 130 + '"]', '[a~="' + '\\\\' * 40 + 'x"]',
+    '.' + '\\\\' * 80, '#' + '\\"' * 90, ':-soup-contains("' + '\\\\' * 110 + '")', ':lang("' + '\\\\' * 101 + '")',
     'a' * 300, ':-soup-contains("' + 'y ' * 150 + '")',
 ]
 
@@ -353,7 +357,17 @@ def _pretty_work(args):
                 return v[:-1] if v.endswith('\n') else v
             return pm.pretty(target)
         try:
-            res, used, loc = _run_budget(call, budget, fname)
+            # (the line-event budget cannot see a loop inside the regular-expression engine: a wall-clock watchdog on top)
+            res, used, loc = common.guard(lambda: _run_budget(call, budget, fname), 40)
+        except common.CallTimeout:
+            sys.settrace(None)
+            rec['status'] = 'budget'
+            rec['budget'] = budget
+            rec['events'] = -1
+            rec['stuck_index'] = None
+            rec['detail'] = 'no return within 40 s and no line events: stuck inside a regular expression'
+            out.append(rec)
+            continue
         except Exception as e:
             rec['status'] = 'raised'
             rec['detail'] = '%s: %s' % (type(e).__name__, str(e).split('\n')[0])
@@ -513,9 +527,14 @@ def _b1_group(ev):
 
 
 def part_errctx(chk, pool, tier):
-    maxlen = 6 if tier == 'quick' else 8
-    cfg = _write_cfg('CONSTANTS\n  MaxLen = %d\nINIT Init\nNEXT Next\nINVARIANT Emit\n%sCHECK_DEADLOCK FALSE\n' % (
-        maxlen, ''.join('INVARIANT %s\n' % t for t in ERRCTX_THEOREMS)))
+    _part_errctx(chk, pool, 6 if tier == 'quick' else 8, '{12}' if tier == 'quick' else '{}', '')
+    # characters that are line breaks for str.splitlines() / for CSS white space but not for the error context
+    _part_errctx(chk, pool, 4 if tier == 'quick' else 6, '{12, 11, 133, 8232, 8233}' if tier == 'quick' else '{12, 133, 8232}', 'x')
+
+
+def _part_errctx(chk, pool, maxlen, extra, tag):
+    cfg = _write_cfg('CONSTANTS\n  MaxLen = %d\n  Extra = %s\nINIT Init\nNEXT Next\nINVARIANT Emit\n%sCHECK_DEADLOCK FALSE\n' % (
+        maxlen, extra, ''.join('INVARIANT %s\n' % t for t in ERRCTX_THEOREMS)))
     pending = []
     buf = []
 
@@ -530,7 +549,7 @@ def part_errctx(chk, pool, tier):
         _rm_cfg(cfg)
     if buf:
         pending.append(pool.apply_async(_b1_work, (list(buf),)))
-    label = '%s%d' % (LABEL_B1, maxlen)
+    label = '%s%d%s' % (LABEL_B1, maxlen, tag)
     chk.add_tlc(res, label)
     if res.violation:
         chk.violation('%s|spec|%s' % (label, res.violated_name),
